@@ -985,6 +985,14 @@ func (runInfo *runInfoStruct) runChanStmt(stmt *ast.ChanStmt) {
 		runInfo.expr = stmt.OkExpr
 		runInfo.invokeLetExpr()
 		// TODO: ok to ignore error?
+		// an interruption that landed while the ok expression was evaluated must not be swallowed
+		select {
+		case <-runInfo.ctx.Done():
+			runInfo.rv = nilValue
+			runInfo.err = ErrInterrupt
+			return
+		default:
+		}
 	}
 
 	if ok {
